@@ -120,7 +120,9 @@ func (b *backendLoginSessionHandler) handleLoginPluginMessage(p *packet.LoginPlu
 		requestedForwardingVersion := velocity.DefaultForwardingVersion
 		// Check version
 		if len(p.Data) == 1 {
-			requestedForwardingVersion = int(p.Data[0])
+			// Velocity reads this as a signed byte (ByteBuf.readByte): 0x80..0xFF is negative and
+			// therefore negotiates the default version instead of being clamped to the maximum.
+			requestedForwardingVersion = int(int8(p.Data[0]))
 		}
 
 		forwardingData, err := velocity.CreateForwardingData(
